@@ -118,23 +118,23 @@
 
 // @reg name=shared::clone_step props=C01,C02,C03,C07,C16 tier=quick flags=leak group=step note=clone_step_on_arbitrary_shared_state
 // @reg name=shared::to_vec_step props=C01,C02,C03,C16 tier=quick flags=leak group=step note=to_vec_step_on_arbitrary_shared_state
-// @reg name=shared::to_mut_step props=C01,C02,C03,C04,C07,C08,C16 tier=quick flags=leak group=step note=to_mut_step_on_arbitrary_shared_state
+// @reg name=shared::to_mut_step props=C01,C02,C03,C04,C07,C08,C16,C18 tier=quick flags=leak group=step note=to_mut_step_on_arbitrary_shared_state
 // @reg name=shared::unique_step props=C08,C16 tier=quick flags=leak group=step note=unique_step_on_arbitrary_shared_state
 // @reg name=shared::drop_step props=C02,C03,C16 tier=quick flags=leak group=step note=drop_step_on_arbitrary_shared_state
 // @reg name=promoted_even::clone_step props=C01,C02,C03,C07,C16 tier=quick flags=leak group=step note=clone_step_on_arbitrary_promoted_even_state
 // @reg name=promoted_even::to_vec_step props=C01,C02,C03,C16 tier=quick flags=leak group=step note=to_vec_step_on_arbitrary_promoted_even_state
-// @reg name=promoted_even::to_mut_step props=C01,C02,C03,C04,C07,C08,C16 tier=quick flags=leak group=step note=to_mut_step_on_arbitrary_promoted_even_state
+// @reg name=promoted_even::to_mut_step props=C01,C02,C03,C04,C07,C08,C16,C18 tier=quick flags=leak group=step note=to_mut_step_on_arbitrary_promoted_even_state
 // @reg name=promoted_even::unique_step props=C08,C16 tier=quick flags=leak group=step note=unique_step_on_arbitrary_promoted_even_state
 // @reg name=promoted_even::drop_step props=C02,C03,C16 tier=quick flags=leak group=step note=drop_step_on_arbitrary_promoted_even_state
 // @reg name=promoted_odd::clone_step props=C01,C02,C03,C07,C16 tier=quick flags=leak group=step note=clone_step_on_arbitrary_promoted_odd_state
 // @reg name=promoted_odd::to_vec_step props=C01,C02,C03,C16 tier=quick flags=leak group=step note=to_vec_step_on_arbitrary_promoted_odd_state
-// @reg name=promoted_odd::to_mut_step props=C01,C02,C03,C04,C07,C08,C16 tier=quick flags=leak group=step note=to_mut_step_on_arbitrary_promoted_odd_state
+// @reg name=promoted_odd::to_mut_step props=C01,C02,C03,C04,C07,C08,C16,C18 tier=quick flags=leak group=step note=to_mut_step_on_arbitrary_promoted_odd_state
 // @reg name=promoted_odd::unique_step props=C08,C16 tier=quick flags=leak group=step note=unique_step_on_arbitrary_promoted_odd_state
 // @reg name=promoted_odd::drop_step props=C02,C03,C16 tier=quick flags=leak group=step note=drop_step_on_arbitrary_promoted_odd_state
 // @reg name=promo_to_vec_even props=C01,C02,C03,C16 tier=quick flags=leak group=step note=promo_to_vec_even_address
 // @reg name=promo_to_vec_odd props=C01,C02,C03,C16 tier=quick flags=leak group=step note=promo_to_vec_odd_address
-// @reg name=promo_to_mut_even props=C01,C02,C03,C04,C07,C08,C16 tier=quick flags=leak group=step note=promo_to_mut_even_address
-// @reg name=promo_to_mut_odd props=C01,C02,C03,C04,C07,C08,C16 tier=quick flags=leak group=step note=promo_to_mut_odd_address
+// @reg name=promo_to_mut_even props=C01,C02,C03,C04,C07,C08,C16,C18 tier=quick flags=leak group=step note=promo_to_mut_even_address
+// @reg name=promo_to_mut_odd props=C01,C02,C03,C04,C07,C08,C16,C18 tier=quick flags=leak group=step note=promo_to_mut_odd_address
 // @reg name=promo_drop_even props=C02,C03,C16 tier=quick flags=leak group=step note=promo_drop_even_address
 // @reg name=promo_drop_odd props=C02,C03,C16 tier=quick flags=leak group=step note=promo_drop_odd_address
 // @reg name=promo_view_ops_even props=C01,C02,C03,C07,C08,C13,C16 tier=quick flags=leak group=step note=promo_view_ops_even_address
